@@ -840,7 +840,35 @@ def inner_is_registry_rule(ck, F, rid="C08.R12"):
                    "`never` (the sum of the per-layer filters) to the unfiltered layers, which then miss what only the filtered neighbour rejected" % sorted(have), fn=b.path)
 
 
+def pick_interest_effects(ck, F, rid="C08.R14"):
+    """The tables compare what pick_interest *returns*. Its one side effect is part of the protocol too: when the outer
+    layer's `never` short-circuits the inner stack, what the per-subscriber filters of that stack would have added to the
+    thread's interest accumulator must be discarded (FilterState::take_interest) -- else it is summed into the next
+    callsite's registration; and on every other path the inner stack is asked exactly once."""
+    b = F.body("tracing_subscriber::subscribe::layered::Layered::<A, B, C>::pick_interest")
+    if not ck.anchor(rid, "Layered::pick_interest", b):
+        return
+    problems = []
+    for p in PathEval(b).run():
+        if p.end != "return":
+            continue
+        ms = [c[1].get("method") for c in p.calls]
+        asked = ms.count("call_once") + ms.count("call") + ms.count("call_mut")
+        if asked == 0 and "take_interest" not in ms:
+            problems.append("a path that does not ask the inner stack leaves the per-subscriber interest accumulator as it is (conditions %s)" % [(show(c[0])[:30], c[1]) for c in p.conds if c[0][0] != "const"])
+        if asked > 1:
+            problems.append("the inner stack is asked %d times on one path" % asked)
+        if asked and "take_interest" in ms:
+            problems.append("the accumulator is cleared although the inner stack was asked (its filters' interests are lost)")
+    key = "pick_interest asks the inner stack once, or discards the pending per-subscriber interest when it short-circuits"
+    if problems:
+        ck.bad(rid, key, where(b.raw["sp"]), "; ".join(sorted(set(problems))), fn=b.path)
+    else:
+        ck.ok(rid, key, fn=b.path)
+
+
 def pick_tables(ck, F, rid="C08.R14"):
+    pick_interest_effects(ck, F, rid)
     """The two functions through which a Layered stack combines what its halves published. Their control flow is a
     cascade of flag tests whose order matters; the rules elsewhere pin single clauses (None layers, the registry test,
     who is asked). Here the whole function is turned into a table: every return path PathEval enumerates is evaluated
